@@ -687,7 +687,7 @@ class CountingGates(object):
 
 def qc_canon(qc):
     return [(x.operation.name, tuple(float(p) for p in x.operation.params), tuple(q._index for q in x.qubits),
-             tuple(c._index for c in x.clbits)) for x in qc.data] + [("nq", qc.num_qubits, qc.num_clbits)]
+             tuple(c._index for c in x.clbits), getattr(x.operation, "duration", None), getattr(x.operation, "unit", None)) for x in qc.data] + [("nq", qc.num_qubits, qc.num_clbits)]
 
 
 def purity_family(ck, classes, pool, mode="check"):
@@ -713,6 +713,8 @@ def purity_family(ck, classes, pool, mode="check"):
                 else:
                     i = rng.randrange(n - 1); c, t = rng.choice([(i, i + 1), (i + 1, i)])
                     (qc.cx if rng.random() < 0.5 else qc.ecr)(c, t); prog.append(["2q", c, t])
+            if rng.random() < 0.5:    # a delay given in an SI unit, and one in dt: run() must leave the circuit object exactly as it was
+                qc.delay(20, rng.randrange(n), unit=rng.choice(["us", "ns", "dt"])); prog.append(["delay"])
             for q in range(n):
                 qc.sx(q)          # every qubit is used, so the layered classes accept the circuit
             for q in range(n):
